@@ -29,6 +29,9 @@ TRUST = ["TLC 1.8 / tla2tools (model checker and evaluator of the specification)
 def c01(ctx):
     ctx.assumptions += TRUST
     ctx.tlc_mc("SemMC", "SemMC_prog_%s.cfg" % ctx.tier, label="C01_Sem on two-statement programs (design level)")
+    if ctx.tier == "thorough":
+        ctx.assumptions.append("Apalache 0.58 + Z3 for the inductive invariant of DrawApa.tla (balances, amount, caps, grants are unbounded integers)")
+        sem.inductive_apalache(ctx, "DrawApa", guards=[("IndInit", "NextBad", "IndInvFinal", 1), ("Init", None, "NeverShort", 3)])
     n, b = scale(ctx, (2500, 4), (6000, 16))
     sem.trace_batches(ctx, "mixed", "MachineTrace_C01.cfg", n, b)
     sem.trace_batches(ctx, "multi", "MachineTrace_C01.cfg", n, b)
@@ -56,6 +59,10 @@ def c02(ctx):
 def c03(ctx):
     ctx.assumptions += TRUST
     ctx.tlc_mc("SemMC", "SemMC_src_%s.cfg" % ctx.tier, label="C03_Sem capacity lemma on the source family (design level)")
+    if ctx.tier == "thorough":
+        ctx.assumptions.append("Apalache 0.58 + Z3 for the inductive invariant of DrawApa.tla (balances, amount, caps, grants are unbounded integers)")
+        sem.inductive_apalache(ctx, "DrawApa", guards=[("IndInit", "NextBad", "IndInvFinal", 1), ("Init", None, "NeverShort", 3)])
+        sem.inductive_apalache(ctx, "ReconcileApa", guards=[("IndInit", "NextBad", "IndInvFinal", 1), ("Init", None, "NeverDone", 8)])
     n, b = scale(ctx, (2500, 6), (6000, 24))
     sem.trace_batches(ctx, "exact", "MachineTrace_C03.cfg", n, b)
     sem.scale_sem(ctx, "exact", "MachineTrace_C03.cfg", scale(ctx, 1500, 15000))
@@ -68,6 +75,9 @@ def c03(ctx):
 def c04(ctx):
     ctx.assumptions += TRUST
     ctx.tlc_mc("SemMC", "SemMC_src_%s.cfg" % ctx.tier, label="C04_Sem greedy-draw lemmas on the source family (design level)")
+    # the same draw over unbounded integers, the same account named several times: inductive invariant by Apalache
+    ctx.assumptions.append("Apalache 0.58 + Z3 for the inductive invariant of DrawApa.tla (balances, amount, caps, grants are unbounded integers)")
+    sem.inductive_apalache(ctx, "DrawApa", guards=[("IndInit", "NextBad", "IndInvFinal", 1), ("Init", None, "NeverShort", 3)])
     n, b = scale(ctx, (2500, 6), (6000, 24))
     sem.trace_batches(ctx, "src", "MachineTrace_C04.cfg", n, b)
     sem.scale_sem(ctx, "src", "MachineTrace_C04.cfg", scale(ctx, 1500, 15000))
@@ -110,6 +120,9 @@ def c07(ctx):
     ctx.build()
     ctx.tlc_mc("Reconcile", "Reconcile_%s.cfg" % ctx.tier,
                label="Reconcile.tla refines Sem!Pair: all sender/receiver lists up to the bound, kept anywhere (design level)")
+    # unbounded amounts: the same machine, typed, with an inductive invariant discharged by Apalache (lists up to 3 + 3)
+    ctx.assumptions.append("Apalache 0.58 + Z3 for the inductive invariant of ReconcileApa.tla (amounts are unbounded integers)")
+    sem.inductive_apalache(ctx, "ReconcileApa", guards=[("IndInit", "NextBad", "IndInvFinal", 1), ("Init", None, "NeverDone", 8)])
     # behaviour generation: every initial state of Reconcile.tla is printed by TLC and fed to the real interpreter.Reconcile
     g = ctx.tlc("Reconcile", "Reconcile_gen_%s.cfg" % ctx.tier, workers=1, label="behaviour generation for interpreter.Reconcile")
     if g["tlc_error"] or not g["finished"]:
